@@ -484,5 +484,7 @@ def build_signal_namespace(signals, reserved_keywords=set()):
 
     # Handle signals with overridden names, ensuring they are processed in a consistent order.
     signals_with_name_override = filter(lambda s: s.name_override is not None, signals)
+    for signal in sorted(signals_with_name_override, key=lambda s: s.duid):
+        namespace.get_name(signal)
 
     return namespace
